@@ -79,60 +79,7 @@ impl PhysicalOperator for SortExec {
             return Ok(Box::pin(stream::empty()));
         }
 
-        // Input batches may carry dictionary-encoded string columns
-        // (small-build join gathers), so their ACTUAL schema can differ from
-        // the declared one. When every batch agrees, concat under the actual
-        // schema (concat keeps dictionaries); mixed encodings are normalized
-        // to plain first.
-        let all_batches = {
-            let first_schema = all_batches[0].schema();
-            if all_batches.iter().all(|b| b.schema() == first_schema) {
-                all_batches
-            } else {
-                all_batches
-                    .into_iter()
-                    .map(|b| {
-                        let cols: std::result::Result<Vec<ArrayRef>, arrow::error::ArrowError> = b
-                            .columns()
-                            .iter()
-                            .map(|c| match c.data_type() {
-                                arrow::datatypes::DataType::Dictionary(_, v) => {
-                                    compute::cast(c.as_ref(), v)
-                                }
-                                _ => Ok(c.clone()),
-                            })
-                            .collect();
-                        RecordBatch::try_new(self.schema.clone(), cols?).map_err(Into::into)
-                    })
-                    .collect::<Result<Vec<_>>>()?
-            }
-        };
-        let actual_schema = all_batches[0].schema();
-
-        // Check if Utf8 columns risk exceeding the 2GB i32 offset limit
-        let needs_large_utf8 = check_string_overflow_risk(&actual_schema, &all_batches);
-
-        let (working_schema, working_batches) = if needs_large_utf8 {
-            let schema = promote_utf8_schema(&actual_schema);
-            let batches = all_batches
-                .iter()
-                .map(|b| promote_utf8_batch(b))
-                .collect::<Result<Vec<_>>>()?;
-            (schema, batches)
-        } else {
-            (actual_schema, all_batches)
-        };
-
-        let batch = concat_batches(&working_schema, &working_batches)?;
-
-        // Sort
-        let sorted = sort_batch(&batch, &self.order_by, self.fetch)?;
-
-        let sorted = if needs_large_utf8 {
-            demote_utf8_batch(&sorted)?
-        } else {
-            sorted
-        };
+        let sorted = sort_collected_batches(all_batches, &self.schema, &self.order_by, self.fetch)?;
 
         Ok(Box::pin(stream::once(async { Ok(sorted) })))
     }
@@ -157,6 +104,47 @@ impl fmt::Display for SortExec {
             .collect();
         write!(f, "Sort: [{}]", order.join(", "))
     }
+}
+
+/// Sort already-collected (non-empty) batches into one batch: the whole of
+/// the in-memory sort after the input has been drained. `ExternalSortExec`
+/// calls this directly when its input fits the budget, so both operators sort
+/// the batches in the order they were collected.
+pub(crate) fn sort_collected_batches(
+    all_batches: Vec<RecordBatch>,
+    declared: &SchemaRef,
+    order_by: &[SortExpr],
+    fetch: Option<usize>,
+) -> Result<RecordBatch> {
+    let all_batches = normalize_batch_schemas(all_batches, declared)?;
+    let actual_schema = all_batches[0].schema();
+
+    // Check if Utf8 columns risk exceeding the 2GB i32 offset limit
+    let needs_large_utf8 = check_string_overflow_risk(&actual_schema, &all_batches);
+
+    let (working_schema, working_batches) = if needs_large_utf8 {
+        let schema = promote_utf8_schema(&actual_schema);
+        let batches = all_batches
+            .iter()
+            .map(|b| promote_utf8_batch(b))
+            .collect::<Result<Vec<_>>>()?;
+        (schema, batches)
+    } else {
+        (actual_schema, all_batches)
+    };
+
+    let batch = concat_batches(&working_schema, &working_batches)?;
+
+    // Sort
+    let sorted = sort_batch(&batch, order_by, fetch)?;
+
+    let sorted = if needs_large_utf8 {
+        demote_utf8_batch(&sorted)?
+    } else {
+        sorted
+    };
+
+    Ok(sorted)
 }
 
 fn concat_batches(schema: &SchemaRef, batches: &[RecordBatch]) -> Result<RecordBatch> {
@@ -197,7 +185,7 @@ pub fn sort_batch(
     let sort_columns = sort_columns?;
 
     // Get sort indices — pass fetch as limit for Top-K optimization
-    let indices = compute::lexsort_to_indices(&sort_columns, fetch)?;
+    let indices = stable_lexsort_to_indices(sort_columns, fetch)?;
 
     // Reorder all columns
     let sorted_columns: Result<Vec<ArrayRef>> = batch
@@ -207,6 +195,125 @@ pub fn sort_batch(
         .collect();
 
     RecordBatch::try_new(batch.schema(), sorted_columns?).map_err(Into::into)
+}
+
+/// Name a collected batch's columns as the plan declares them while keeping
+/// the columns' ACTUAL types (an in-memory join may hand over
+/// dictionary-encoded strings where the plan says Utf8) — what
+/// `MemoryTableExec` does to the intermediate results routed through it.
+pub(crate) fn rewrap_with_declared_names(
+    batch: RecordBatch,
+    declared: &SchemaRef,
+) -> Result<RecordBatch> {
+    if batch.schema() == *declared || batch.num_columns() != declared.fields().len() {
+        return Ok(batch);
+    }
+    let fields: Vec<Field> = declared
+        .fields()
+        .iter()
+        .zip(batch.columns())
+        .map(|(f, c)| {
+            if f.data_type() == c.data_type() {
+                f.as_ref().clone()
+            } else {
+                Field::new(f.name(), c.data_type().clone(), true)
+            }
+        })
+        .collect();
+    RecordBatch::try_new(
+        Arc::new(arrow::datatypes::Schema::new(fields)),
+        batch.columns().to_vec(),
+    )
+    .map_err(Into::into)
+}
+
+/// Bring every batch to ONE schema so they can be concatenated (or written to
+/// one spill file).
+///
+/// Input batches may carry dictionary-encoded string columns (small-build
+/// join gathers), so their ACTUAL schema can differ from the declared one.
+/// When every batch agrees, keep the actual schema (concat keeps
+/// dictionaries); mixed encodings are normalized to plain first.
+pub(crate) fn normalize_batch_schemas(
+    batches: Vec<RecordBatch>,
+    declared: &SchemaRef,
+) -> Result<Vec<RecordBatch>> {
+    let Some(first) = batches.first() else {
+        return Ok(batches);
+    };
+    let first_schema = first.schema();
+    if batches.iter().all(|b| b.schema() == first_schema) {
+        return Ok(batches);
+    }
+    batches
+        .into_iter()
+        .map(|b| {
+            let cols: std::result::Result<Vec<ArrayRef>, arrow::error::ArrowError> = b
+                .columns()
+                .iter()
+                .map(|c| match c.data_type() {
+                    arrow::datatypes::DataType::Dictionary(_, v) => compute::cast(c.as_ref(), v),
+                    _ => Ok(c.clone()),
+                })
+                .collect();
+            RecordBatch::try_new(declared.clone(), cols?).map_err(Into::into)
+        })
+        .collect()
+}
+
+/// `lexsort_to_indices` with a DETERMINISTIC order for ties: rows that compare
+/// equal on every sort key keep their input order (a stable sort).
+///
+/// Arrow's kernels sort unstably, so the order of tied rows — and, with a
+/// `fetch`, WHICH of the rows tied at the cut-off are returned — was an
+/// artefact of the sorting algorithm and of how the input happened to be
+/// chunked. The external (spilling) sort cannot reproduce such an artefact:
+/// it sorts runs independently and merges them. Both paths therefore promise
+/// the same well-defined order: sort keys first, input position second.
+pub(crate) fn stable_lexsort_to_indices(
+    mut columns: Vec<SortColumn>,
+    fetch: Option<usize>,
+) -> Result<arrow::array::UInt32Array> {
+    use arrow::array::UInt32Array;
+
+    let num_rows = match columns.first() {
+        Some(c) => c.values.len(),
+        // No sort key: let the kernel report it.
+        None => return compute::lexsort_to_indices(&columns, fetch).map_err(Into::into),
+    };
+
+    match fetch {
+        // Top-K: the partial sort must already see the total order, or it
+        // selects arbitrary members of a tie at the boundary. The row number
+        // as the last key makes every comparison decisive.
+        Some(k) if k < num_rows => {
+            columns.push(SortColumn {
+                values: Arc::new(UInt32Array::from_iter_values(0..num_rows as u32)),
+                options: None,
+            });
+            compute::lexsort_to_indices(&columns, Some(k)).map_err(Into::into)
+        }
+        // Full sort: keep the kernel's fast paths, then put each run of
+        // equal-keyed rows back into input order (ascending row number).
+        _ => {
+            let sorted = compute::lexsort_to_indices(&columns, None)?;
+            let mut indices: Vec<u32> = sorted.values().to_vec();
+            let comparator = compute::LexicographicalComparator::try_new(&columns)?;
+            let mut start = 0;
+            for i in 1..=indices.len() {
+                let run_ends = i == indices.len()
+                    || comparator.compare(indices[i - 1] as usize, indices[i] as usize)
+                        != std::cmp::Ordering::Equal;
+                if run_ends {
+                    if i - start > 1 {
+                        indices[start..i].sort_unstable();
+                    }
+                    start = i;
+                }
+            }
+            Ok(UInt32Array::from(indices))
+        }
+    }
 }
 
 /// Check if concatenating batches would risk exceeding the 2GB i32 offset limit
@@ -304,7 +411,7 @@ mod tests {
     use super::*;
     use crate::physical::MemoryTableExec;
     use crate::planner::{Expr, NullOrdering};
-    use arrow::array::{Int64Array, StringArray};
+    use arrow::array::{Array, Int64Array, StringArray};
     use arrow::datatypes::{DataType, Field, Schema};
     use futures::TryStreamExt;
 
@@ -355,6 +462,62 @@ mod tests {
         assert_eq!(ids.value(2), 3);
         assert_eq!(ids.value(3), 4);
         assert_eq!(ids.value(4), 5);
+    }
+
+    /// Rows equal on every key keep their input order, with and without a
+    /// fetch — the order the external sort's run merge reproduces.
+    #[test]
+    fn ties_keep_input_order() {
+        let n = 5000usize;
+        let schema = Arc::new(Schema::new(vec![
+            Field::new("k", DataType::Int64, true),
+            Field::new("pos", DataType::Int64, false),
+        ]));
+        let keys: Int64Array = (0..n)
+            .map(|i| {
+                if i % 7 == 0 {
+                    None
+                } else {
+                    Some((i * 31 % 5) as i64)
+                }
+            })
+            .collect();
+        let pos: Int64Array = (0..n as i64).collect::<Vec<_>>().into();
+        let batch = RecordBatch::try_new(schema, vec![Arc::new(keys), Arc::new(pos)]).unwrap();
+
+        for (direction, nulls) in [
+            (SortDirection::Asc, NullOrdering::NullsFirst),
+            (SortDirection::Desc, NullOrdering::NullsLast),
+        ] {
+            let order_by = vec![SortExpr {
+                expr: Expr::column("k"),
+                direction,
+                nulls,
+            }];
+            let full = sort_batch(&batch, &order_by, None).unwrap();
+            let k = full
+                .column(0)
+                .as_any()
+                .downcast_ref::<Int64Array>()
+                .unwrap();
+            let p = full
+                .column(1)
+                .as_any()
+                .downcast_ref::<Int64Array>()
+                .unwrap();
+            for i in 1..n {
+                let same_key = k.is_null(i) == k.is_null(i - 1)
+                    && (k.is_null(i) || k.value(i) == k.value(i - 1));
+                if same_key {
+                    assert!(p.value(i - 1) < p.value(i), "tie out of input order at {i}");
+                }
+            }
+            // Top-K returns exactly the first rows of the full stable sort.
+            for fetch in [0usize, 1, 713, 714, 4999, 5000, 9000] {
+                let top = sort_batch(&batch, &order_by, Some(fetch)).unwrap();
+                assert_eq!(top, full.slice(0, fetch.min(n)));
+            }
+        }
     }
 
     #[tokio::test]
